@@ -57,6 +57,23 @@ func (p *SaltPool) Add(now time.Time, salt [32]byte) bool {
 	return true
 }
 
+// AddUntil is like Add, but keeps the salt until at least the given time,
+// for callers that may have to refuse the salt for longer than [ReplayWindowDuration].
+func (p *SaltPool) AddUntil(now time.Time, salt [32]byte, until time.Time) bool {
+	p.mu.Lock()
+	defer p.mu.Unlock()
+
+	p.pruneExpired(now)
+	if _, ok := p.nodeBySalt[salt]; ok {
+		return false
+	}
+	p.insert(now, salt)
+	if p.tail.expiresAt.Before(until) {
+		p.tail.expiresAt = until
+	}
+	return true
+}
+
 // Clear removes all salts from the pool.
 func (p *SaltPool) Clear() {
 	p.mu.Lock()
